@@ -3,8 +3,15 @@
   `LemoGen.Header` is REGENERATED from /repo's working tree on every run: `badHeightCond` is the
   `if parent.Height()+1 != block.Height()` of `verifyHeight` (uint32 arithmetic, wrap-around included),
   `futureCond` the `if int64(block.Time())-timeNow > 1` of `verifyTime`, `extraTooLongCond` the
-  `if len(block.Extra()) > params.MaxExtraDataLen` of `verifyExtraData`.  The theorems say that the three
-  rejection tests of `LemoModel.Validator.verifyBefore` (the function `accept_sound` is about) are these.
+  `if len(block.Extra()) > params.MaxExtraDataLen` of `verifyExtraData`.
+
+  `verifyBefore_regenerated` is the tie: it rewrites the MODEL FUNCTION `LemoModel.Validator.verifyBefore` (the one
+  `accept_sound` / `reject_no_effect` are about), for every context and block whose earlier checks pass, as a
+  cascade over the three GENERATED conditions applied to the block's and the parent's fields.  What the tie
+  covers is each comparison with its operands and constants (narrowing conversions included, see
+  `GoSem.toS`); what it does NOT cover — the position of each `if` inside its Go function, the body of the
+  branch, the order of the checks inside VerifyBeforeTxProcess — is covered by the correspondence run only
+  (review round 8, R2).
 -/
 import LemoModel.Validator
 import LemoGen.Header
@@ -14,6 +21,32 @@ open LemoModel LemoModel.Validator
 
 theorem maxExtraDataLen_regenerated : (Validator.maxExtraDataLen : Int) = LemoGen.Header.MaxExtraDataLen := rfl
 
+private theorem extra_cond (n : Nat) :
+    LemoGen.Header.extraTooLongCond n = decide (n > Validator.maxExtraDataLen) := by
+  simp only [LemoGen.Header.extraTooLongCond, Validator.maxExtraDataLen]
+  by_cases h : n > 256
+  · have : (n : Int) > 256 := by omega
+    simp [h, this]
+  · have : ¬ (n : Int) > 256 := by omega
+    simp [h, this]
+
+/-- **the tie**: after the parent lookup, the signer check and the tx-root check have passed, the verdict of the model's
+    `verifyBefore` is decided by the three regenerated conditions, in this order, and then by verifyTxs / verifyMiner -/
+theorem verifyBefore_regenerated (c : Ctx) (b : Block) (parent : Header)
+    (hp : c.load b.header.parentHash = some parent) (hs : verifySigner c b = none)
+    (hr : (c.merkleRoot b.txs != b.header.txRoot) = false) :
+    verifyBefore c b =
+      (if LemoGen.Header.badHeightCond b.header.height parent.height then .reject .height
+       else if LemoGen.Header.futureCond b.header.time c.now then .reject .future
+       else if LemoGen.Header.extraTooLongCond b.header.extra.length then .reject .extra
+       else match verifyTxs c b with
+         | .ok => verifyMiner c b.header parent
+         | v => v) := by
+  simp only [verifyBefore, hp, hs, hr, extra_cond, LemoGen.Header.badHeightCond, LemoGen.Header.futureCond]
+  simp [Validator.u32]
+  rfl
+
+/-- the three conditions one by one, for reference (consequences of the definitions; the tie is the theorem above) -/
 theorem height_check_regenerated (parentHeight blockHeight : Nat) :
     LemoGen.Header.badHeightCond blockHeight parentHeight
       = (GoSem.uadd Validator.u32 parentHeight 1 != blockHeight) := rfl
@@ -22,12 +55,6 @@ theorem future_check_regenerated (blockTime : Nat) (now : Int) :
     LemoGen.Header.futureCond blockTime now = decide ((blockTime : Int) - now > 1) := rfl
 
 theorem extra_check_regenerated (n : Nat) :
-    LemoGen.Header.extraTooLongCond n = decide (n > Validator.maxExtraDataLen) := by
-  simp only [LemoGen.Header.extraTooLongCond, Validator.maxExtraDataLen]
-  by_cases h : n > 256
-  · have : (n : Int) > 256 := by omega
-    simp [h, this]
-  · have : ¬ (n : Int) > 256 := by omega
-    simp [h, this]
+    LemoGen.Header.extraTooLongCond n = decide (n > Validator.maxExtraDataLen) := extra_cond n
 
 end LemoProofs.HeaderTie
